@@ -279,7 +279,7 @@ def execute(env, sc):
         ds.trace("C57 base=%d muts=%s %.1fs %s %s" % (bi, [m["kind"] for m in sc["muts"]], time.time() - t0, r.inconclusive or "", [v[0] for v in r.violations]))
 
 
-def classify(db, url):
+def classify(db, url, truncated_hit=False):
     """What the (mutated) image holds for url: does an on-disk chain that starts at an inode carrying url's key run
     through a slot that belongs elsewhere?"""
     key = rockdb.store_key(url)
@@ -299,13 +299,17 @@ def classify(db, url):
                 break
             cur = c.next
             steps += 1
+    # a slot of this key whose header lies inside the (truncated) file while its payload does not
+    beyond = any(sl.key == key and db.offset(i) + rockdb.CELL_SIZE + sl.payload_size > len(db.data) for i, sl in d.items())
+    if truncated_hit and beyond:
+        # a delivery that is a correct prefix and ends early is what a payload missing from the file produces, whatever else
+        # the image holds for this key
+        return "slot-payload-beyond-end-of-file"
     for c in ("chain-links-to-slot-of-another-key", "chain-links-to-slot-of-another-chain-of-the-key"):
         if c in classes:
             return c
-    # a slot of this key whose header lies inside the (truncated) file while its payload does not
-    for i, sl in d.items():
-        if sl.key == key and db.offset(i) + rockdb.CELL_SIZE + sl.payload_size > len(db.data):
-            return "slot-payload-beyond-end-of-file"
+    if beyond:
+        return "slot-payload-beyond-end-of-file"
     return "other"
 
 
@@ -323,7 +327,8 @@ def _probe_all(env, port, content, nurls, r, stage, extra=None, db=None, sizes_m
             hits += 1
             continue
         served = content.served_versions(u)
-        cls = classify(db, content.url(u)) if db is not None else "other"
+        truncated_hit = not m.complete and any(content.body(u, v).startswith(m.body) for v in served)
+        cls = classify(db, content.url(u), truncated_hit) if db is not None else "other"
         if sizes_mutated and cls == "other":
             # payloadSize/entrySize were rewritten: that cuts or extends the payload the slot contributes, i.e. it changes
             # payload bytes, which the generator otherwise never does; differing bytes are then not judged (counted)
